@@ -162,8 +162,13 @@ func runC12(c *mon.Ctx) {
 	// pad returns a document of exactly n bytes (valid message + trailing comment when it fits)
 	// the filler of the trailing comment is plain ASCII, or bytes in a legacy encoding (an XML processor does not
 	// look inside comments; what is accepted as received must be accepted compressed)
+	preferUnsigned := false // a message with almost nothing incompressible in it: the whole stream then deflates at the format's maximum ratio
 	pad := func(kind string, n int64, filler string) (string, bool, string) {
-		for _, signed := range []bool{true, false} {
+		order := []bool{true, false}
+		if preferUnsigned {
+			order = []bool{false, true}
+		}
+		for _, signed := range order {
 			b := baseDoc(kind, signed)
 			if int64(len(b))+7 <= n {
 				return b + "<!--" + strings.Repeat(filler, int(n)-len(b)-7) + "-->", signed, "valid-message"
@@ -235,7 +240,9 @@ func runC12(c *mon.Ctx) {
 						n = 0
 					}
 					filler := []string{"p", "p", "\xe9", "\xff"}[k%4]
+					preferUnsigned = k%3 == 0
 					doc, signed, what := pad(ep.kind, n, filler)
+					preferUnsigned = false
 					comp := sim.Deflate([]byte(doc), lvl)
 					in := base64.StdEncoding.EncodeToString(comp)
 					raw := base64.StdEncoding.EncodeToString([]byte(doc))
@@ -289,6 +296,53 @@ func runC12(c *mon.Ctx) {
 					if ei == 0 && lvl == 6 {
 						cs.Sample(map[string]any{"class": gc, "twin": tc, "alloc_bytes": alloc, "inflate_hook": inflateEvents})
 					}
+				}
+			}
+		}
+	}
+
+	// ---- messages that deflate at the format's maximum ratio (one long run, almost no incompressible part) and
+	// inflate to exactly the limit or one byte less: within the limit, so as acceptable compressed as received ----
+	mk := 0
+	for _, ep := range eps {
+		for _, delta := range []int64{-1, 0} {
+			for _, lvl := range []int{6, 9} {
+				mk++
+				cs := c.Begin("max-ratio", mk)
+				if cs == nil {
+					continue
+				}
+				n := int64(c12Default) + delta
+				tag := map[string]string{"sso": "Response", "logoutreq": "LogoutRequest", "logoutresp": "LogoutResponse"}[ep.kind]
+				if tag == "" {
+					tag = "Response"
+				}
+				head := `<samlp:` + tag + ` xmlns:samlp="` + sim.NSP + `" Version="2.0" ID="_`
+				tail := `"/>`
+				doc := head + strings.Repeat("A", int(n)-len(head)-len(tail)) + tail
+				comp := sim.Deflate([]byte(doc), lvl)
+				cs.Desc("entry=%s size=limit%+d level=%d compressed=%d ratio=%d:1", ep.name, delta, lvl, len(comp), len(doc)/len(comp))
+				cs.Input([]byte(trunc(doc, 256)))
+				var gerr, terr error
+				pv, stack := mon.Guard(func() {
+					_, gerr = ep.call(mkSP(false, 0), base64.StdEncoding.EncodeToString(comp))
+					_, terr = ep.call(mkSP(false, 0), base64.StdEncoding.EncodeToString([]byte(doc)))
+				})
+				if pv != nil {
+					cs.Violation("panic", "panic: %v\n%s", pv, trunc(stack, 800))
+					continue
+				}
+				cs.Nontrivial(cs.Description())
+				gc, tc := c12Class(gerr), c12Class(terr)
+				switch {
+				case gc == "over-limit":
+					cs.Outcome("wrongly-over-limit")
+					cs.Violation("within-limit-rejected:max-ratio", "a stream of %d bytes inflating to %d <= limit %d was rejected as over the limit: %v", len(comp), n, c12Default, gerr)
+				case gc != tc:
+					cs.Outcome("twin-differs")
+					cs.Violation("not-transparent", "compressed outcome %q (%v) differs from the uncompressed twin's %q (%v)", gc, gerr, tc, terr)
+				default:
+					cs.Outcome("max-ratio:" + gc)
 				}
 			}
 		}
